@@ -58,7 +58,9 @@ impl Checks {
         state_unchanged: true,
         size: true,
         cell_sequences: false,
-        framing: true,
+        // the framing automaton is C08's statement; the other properties only need what the
+        // controller ends up with (a driver that legally skipped a redundant window set-up must not alarm them)
+        framing: false,
         no_panic: true,
     };
     /// C08: only what the controller sees on the bus
